@@ -7,6 +7,7 @@ from typing import TYPE_CHECKING
 
 from ruamel.yaml import YAML
 from ruamel.yaml.compat import StringIO
+from ruamel.yaml.scalarfloat import ScalarFloat
 
 if TYPE_CHECKING:
     from collections.abc import Mapping
@@ -40,6 +41,7 @@ def write_dict(
     """
     yaml = YAML()
     yaml.representer.add_representer(type(None), _yaml_none_representer)
+    yaml.representer.add_representer(ScalarFloat, _yaml_scalar_float_representer)
     yaml.indent(mapping=2, sequence=2, offset=offset)
 
     if file_name is not None:
@@ -96,3 +98,24 @@ def _yaml_none_representer(representer: BaseRepresenter, data: Mapping[str, Any]
     https://stackoverflow.com/a/44314840
     """
     return representer.represent_scalar("tag:yaml.org,2002:null", "null")
+
+
+def _yaml_scalar_float_representer(representer: BaseRepresenter, data: ScalarFloat) -> ScalarNode:
+    """Yaml repr for floats which were loaded from yaml (``ScalarFloat``).
+
+    The round trip representation reuses the number of digits of the loaded text,
+    which does not always give back the same float, so they are written like plain floats.
+
+    Parameters
+    ----------
+    representer : BaseRepresenter
+        Representer of the :class:`YAML` instance.
+    data : ScalarFloat
+        Float loaded from yaml.
+
+    Returns
+    -------
+    ScalarNode
+        Node representing the value.
+    """
+    return representer.represent_float(float(data))
